@@ -218,6 +218,11 @@ class Model:
     """trial_kvs: list of (tid, KeyValue). Returns True iff an error is reported."""
     st = self._guard_mutable_study(owner, sid)
     for tid, _ in trial_kvs:
+      # not the id of any trial (trial ids are positive integers): rejected
+      # like a malformed resource name, nothing changes
+      if not str(tid).strip().lstrip('+').isdigit() or int(tid) <= 0:
+        raise ModelError('BAD_NAME')
+    for tid, _ in trial_kvs:
       if int(tid) not in st.trials:
         return True  # reported via error_details, nothing changes
     self._merge(st.proto.study_spec.metadata, study_kvs)
